@@ -311,8 +311,14 @@ def run_versions_differ(extra, second):
     first = fn.Server(banner=b'SSH-1.99-OpenSSH_3.9p1', raw_after_banner=differ, close_after_send=True)
     later = {'same': fn.Server(banner=b'SSH-1.99-OpenSSH_3.9p1', raw_after_banner=differ, close_after_send=True),
              'pkm': fn.Server(banner=b'SSH-1.5-OpenSSH_3.9p1', raw_after_banner=b'\x00\x00\x00\x05\x00\x00\x00\x02\x00' * 3),
-             'silent': fn.Server(silent=True), 'refuse': fn.Server(refuse=True)}[second]
-    srv = fn.StagedServer([first] + [later] * 40)
+             'silent': fn.Server(silent=True), 'refuse': fn.Server(refuse=True), 'alternate': None}[second]
+    if second == 'alternate':
+        # every later connection announces the OTHER major version than the one before it and refuses again (seed C09-9: the peer steers the retry direction)
+        two = fn.Server(banner=b'SSH-2.0-OpenSSH_8.0', raw_after_banner=differ, close_after_send=True)
+        one = fn.Server(banner=b'SSH-1.5-OpenSSH_3.9p1', raw_after_banner=differ, close_after_send=True)
+        srv = fn.StagedServer([first] + [two, one] * 40)
+    else:
+        srv = fn.StagedServer([first] + [later] * 40)
     if second == 'refuse':
         class RNet(fn.FakeNet):
             def route(self, addr):
@@ -407,7 +413,7 @@ def run(ctx):
     # ---- the first connection answers "Protocol major versions differ.": one retry as SSH-1 (none with -2), no probes, everything closed
     hlines, hexp = [], []
     for extra, tok in (([], 'd1'), (['-2'], 'd0'), (['-1'], 'e'), (['-j'], 'd1'), (['-b', '-v'], 'd1')):
-        for second in ('same', 'pkm', 'silent', 'refuse'):
+        for second in ('same', 'pkm', 'silent', 'refuse', 'alternate'):
             code, out, log = run_versions_differ(extra, second)
             inp = {'handshake': 'versions-differ', 'second_connection': second, 'args': extra}
             cov.add(('hs', tuple(extra), second), True, tags=['handshake-retry', 'conns-%02d' % min(len(log), 30)])
